@@ -721,7 +721,21 @@ impl Interp {
                 };
                 match taken {
                     Some(cc) => {
+                        // C04 oracle: outside every collection and callback, dropping the only pointer to an object
+                        // destroys it (or its finalizer resurrects it): it cannot survive with a strong count of 0
+                        let flags = hooks::phase_flags().unwrap_or((false, false, false));
+                        let idle = ctx.selfp.is_none() && self.cb_depth.get() == 0 && !is_tracing() && !flags.0 && !flags.1 && !flags.2;
+                        let watch = if idle && cc.strong_count() == 1 { Some(hooks::snapshot(&cc).box_addr) } else { None };
                         drop(cc);
+                        if let Some(addr) = watch {
+                            if alloc::is_live(addr) {
+                                let snap = unsafe { hooks::snapshot_at(addr) };
+                                let v = hooks::counter_apply(snap.tracing_word, snap.counter_word, None);
+                                if v.counter == 0 {
+                                    ev!("!last-drop-kept:{}", self.id_of_box(addr).unwrap_or(usize::MAX));
+                                }
+                            }
+                        }
                         Ret::Ok
                     }
                     None => Ret::Skip,
